@@ -13,6 +13,14 @@ def stepLineDddmp (ms : Mgrs) (line : String) : Mgrs × String :=
       | .ok m => (ms.insert id m, "ok " ++ showInts (sortBy (· ≤ ·) m.roots))
       | .error e => (ms, "err " ++ toString e)
     | _, _ => (ms, "err BAD-LINE")
+  | id :: "dddmp_load_fixed" :: fields =>
+    -- the repaired loader (see `DD/Dddmp.lean`), not the current code
+    match parseNat? id, parseDddmpFile fields with
+    | some id, some f =>
+      match loadDddmpFixed f with
+      | .ok m => (ms.insert id m, "ok " ++ showInts (sortBy (· ≤ ·) m.roots))
+      | .error e => (ms, "err " ++ toString e)
+    | _, _ => (ms, "err BAD-LINE")
   | _ => stepLine ms line
 
 partial def loop (h : IO.FS.Stream) (out : IO.FS.Stream) (ms : Mgrs) : IO Unit := do
